@@ -652,3 +652,159 @@ pub fn atomic_leg(args: &Args) {
     rep.note("both units are delivered at the same instant on a current-thread runtime; the interleaving is whatever the production handlers and shard actors produce");
     rep.finish(args);
 }
+
+// ---------------------------------------------------------------------------------------------
+// Executor-level transactions (the simulation path: CommandExecutor::execute with MULTI/EXEC).
+
+fn ex_dump(ex: &redis_sim::redis::CommandExecutor) -> Vec<(String, String)> {
+    let mut v: Vec<(String, String)> = ex.get_data().iter().map(|(k, val)| (k.clone(), format!("{:?}", val))).collect();
+    v.sort();
+    v
+}
+
+fn ex_run(ex: &mut redis_sim::redis::CommandExecutor, a: &Argv) -> Result<Tree, String> {
+    let cmd = crate::c01::parse_argv(a)?;
+    guard(|| myresp::from_resp(&ex.execute(&cmd)))
+}
+
+pub fn exec_leg(args: &Args) {
+    use redis_sim::redis::CommandExecutor;
+    let mut rep = Report::new("C05", "executor");
+    let mut rng = args.rng(52);
+    let mut pool = body_pool();
+    pool.push(("UNWATCH", av(&["UNWATCH"])));
+    pool.push(("PING", av(&["PING"])));
+    pool.push(("DBSIZE", av(&["DBSIZE"])));
+    pool.push(("TYPE", av(&["TYPE", "l"])));
+    let n = args.get_u64("cases", if args.thorough() { 40_000 } else { 4_000 });
+    let replay: Option<Value> = args.replay.as_ref().map(|p| serde_json::from_str(&std::fs::read_to_string(p).expect("replay")).expect("json"));
+    for case in 0..(if replay.is_some() { 1 } else { n }) {
+        let (watch, bkind, bkey, body, discard): (Vec<&'static str>, &'static str, &'static str, Vec<usize>, bool) = if let Some(w) = &replay {
+            let c = case_from(&w["witness"]);
+            (c.watch, c.bop, c.bkey, c.body, c.discard)
+        } else {
+            let bops = ["none", "same-value", "change", "delete", "type-change", "other-key", "change-and-revert"];
+            (
+                (0..rng.gen_range(0..3)).map(|_| KEYS[rng.gen_range(0..KEYS.len())]).collect(),
+                bops[rng.gen_range(0..bops.len())],
+                KEYS[rng.gen_range(0..KEYS.len())],
+                (0..rng.gen_range(0..7)).map(|_| rng.gen_range(0..pool.len())).collect(),
+                rng.gen_bool(0.15),
+            )
+        };
+        rep.evaluations += 1;
+        let mut ex = CommandExecutor::new();
+        let mut twin = CommandExecutor::new();
+        for p in preload() {
+            let _ = ex_run(&mut ex, &p);
+            let _ = ex_run(&mut twin, &p);
+        }
+        let names: Vec<&str> = body.iter().map(|&i| pool[i].0).collect();
+        let wit = json!({"shards": 1, "watch": watch, "body": body, "discard": discard, "bop": bkind, "bkey": bkey, "gap": 1, "executor": true});
+        let tail = format!("watch={}|bop={}:{}", if watch.is_empty() { "-".to_string() } else { watch.iter().map(|k| key_type(k)).collect::<Vec<_>>().join("+") }, bkind, key_type(bkey));
+        macro_rules! viol {
+            ($k:expr, $d:expr) => {{
+                rep.violation(format!("C05|executor|{}|{}", $k, tail), $d, wit.clone());
+                continue;
+            }};
+        }
+        let mut watched_before = vec![];
+        if !watch.is_empty() {
+            let mut w = vec![b("WATCH")];
+            w.extend(watch.iter().map(|k| b(k)));
+            let _ = ex_run(&mut ex, &w);
+            watched_before = watch.iter().map(|k| ex.get_data().get(*k).map(|v| format!("{:?}", v))).collect();
+        }
+        // the other client writes between WATCH and MULTI
+        for op in bop_cmds(bkind, bkey) {
+            let _ = ex_run(&mut ex, &op);
+            let _ = ex_run(&mut twin, &op);
+        }
+        let changed = watch.iter().zip(watched_before.iter()).any(|(k, before)| &ex.get_data().get(*k).map(|v| format!("{:?}", v)) != before);
+        match ex_run(&mut ex, &av(&["MULTI"])) {
+            Ok(Tree::Simple(s)) if s == b"OK" => {}
+            other => viol!("multi-reply", format!("{:?}", other)),
+        }
+        let mut queued: Vec<Argv> = vec![];
+        let mut bad = None;
+        let mut unwatch_queued = false;
+        for &bi in &body {
+            let (name, cmd) = &pool[bi];
+            let before = ex_dump(&ex);
+            let r = match ex_run(&mut ex, cmd) {
+                Ok(r) => r,
+                Err(_) => continue, // the frame does not parse: nothing reached the executor
+            };
+            if ex_dump(&ex) != before {
+                bad = Some((format!("effect-before-exec|body={}", name), format!("{} changed the keyspace when queued", name)));
+                break;
+            }
+            if is_queued(&r) {
+                queued.push(cmd.clone());
+                if *name == "UNWATCH" {
+                    unwatch_queued = true;
+                }
+            } else if !myresp::is_error(&r) {
+                bad = Some((format!("result-before-exec|body={}", name), format!("{} inside MULTI replied {:?} instead of QUEUED", name, r)));
+                break;
+            }
+            rep.count(&format!("queued:{}", name));
+        }
+        if let Some((k, d)) = bad {
+            viol!(k, d);
+        }
+        let pre = ex_dump(&ex);
+        if discard {
+            let r = ex_run(&mut ex, &av(&["DISCARD"]));
+            if !matches!(&r, Ok(Tree::Simple(s)) if s == b"OK") || ex_dump(&ex) != pre {
+                viol!("discard", format!("DISCARD replied {:?}; keyspace changed: {}", r, ex_dump(&ex) != pre));
+            }
+        } else {
+            let r = match ex_run(&mut ex, &av(&["EXEC"])) {
+                Ok(r) => r,
+                Err(p) => viol!("exec-panic", p),
+            };
+            match &r {
+                Tree::Bulk(None) | Tree::Arr(None) => {
+                    rep.count("outcome:nil");
+                    if !changed {
+                        viol!("spurious-watch-abort", "EXEC = nil although no watched key changed".to_string());
+                    }
+                    if ex_dump(&ex) != pre {
+                        viol!("failed-watch-changed-keyspace", "keyspace differs after nil EXEC".to_string());
+                    }
+                }
+                Tree::Arr(Some(results)) => {
+                    rep.count("outcome:applied");
+                    if changed {
+                        viol!("watch-missed-change", format!("EXEC applied although a watched key changed (body {:?})", names));
+                    }
+                    if results.len() != queued.len() {
+                        viol!("exec-length", format!("{} queued, {} results", queued.len(), results.len()));
+                    }
+                    let expect: Vec<Tree> = queued.iter().map(|q| ex_run(&mut twin, q).unwrap_or(Tree::Error(b("twin")))).collect();
+                    if let Some(i) = (0..expect.len()).find(|&i| expect[i] != results[i]) {
+                        viol!(format!("exec-result-differs|cmd={}", String::from_utf8_lossy(&queued[i][0]).to_uppercase()), format!("queued #{}: EXEC {:?}, sequential {:?}", i, results[i], expect[i]));
+                    }
+                    // two executors iterate their hash maps differently: compare through the protocol
+                    let sa = crate::c01::snapshot_with(|q| ex_run(&mut ex, q));
+                    let sb = crate::c01::snapshot_with(|q| ex_run(&mut twin, q));
+                    if sa != sb {
+                        viol!("exec-keyspace-differs", format!("keyspace after EXEC {:?} differs from the sequential run {:?}", sa, sb));
+                    }
+                }
+                other => viol!("exec-reply-shape", format!("{:?}", other)),
+            }
+        }
+        let _ = unwatch_queued;
+        match ex_run(&mut ex, &av(&["EXEC"])) {
+            Ok(t) if myresp::is_error(&t) => {}
+            other => viol!("still-in-transaction", format!("EXEC after the end replied {:?}", other)),
+        }
+        rep.distinct(&(names.join(","), watch.len(), bkind, discard));
+        if case < 3 {
+            rep.sample(wit);
+        }
+    }
+    rep.finish(args);
+}
